@@ -18,7 +18,7 @@ def run(ctx):
     tr = os.path.join(ctx.work, "crash.ndjson")
     ctx.record("record-crash", ["-seed", str(ctx.seed), "-values", "0,1,2,5,999,1000,1001,1999,2000,2001,2500,3001,4500" if thorough else "0,5,1000,1001,2500",
                                 "-updog", updog, "-kills", "80" if thorough else "8"], tr, timeout=3000)
-    ctx.check_trace("Trace_Crash", "Trace_Crash.cfg", tr, "trace-crash", must_have=("Snap", "CrashOpen", "Kill"), run_marker="Begin")
+    ctx.check_trace("Trace_Crash", "Trace_Crash.cfg", tr, "trace-crash", must_have=("Snap", "CrashOpen", "Kill", "Refused"), run_marker="Begin")
 
 
 def replay(ctx, path):
